@@ -268,6 +268,77 @@ def main():
                            "value_bits": v, "impl": g, "spec": e, "how": "harness/C06/apiconv <scratch>; stdin '<A> <T> <n> <hex...>'"})
     except vlib.BuildError as e:
         chk.violation("build", "API harness build failed: " + str(e)[:1500], {"kind": "build"}, found=False)
+    # ---- CONST/CARRAY type change (gd_alter_const / gd_alter_carray): storage class S(T1) -> S(T2) ----
+    try:
+        exe4 = vlib.build_harness(impl, os.path.join(vlib.VERIF, "harness/C06/alterconv.c"))
+        SCONST = {0: 6, 2: 6, 4: 6, 6: 6, 1: 7, 3: 7, 5: 7, 7: 7, 8: 9, 9: 9, 10: 11, 11: 11}
+        nv = 12 if not chk.thorough else 64
+        hl, ml, meta = [], [], []
+        REP = [0, 1, 4, 6, 7, 8, 9, 10, 11]       # one or more declared types per storage class, all four classes
+        for a in (range(12) if chk.thorough else [0, 4, 6, 7, 8, 9, 11]):
+            base = src[a] if a < 10 else src[a - 2]
+            for t1 in REP:
+                for t2 in REP:
+                    if t1 == t2:
+                        continue
+                    vals = [base[rng.randrange(len(base))] for _ in range(nv)]
+                    if a >= 10:
+                        vals = [(v, base[rng.randrange(len(base))]) for v in vals]
+                    hl.append("%d %d %d %d %s" % (a, t1, t2, nv, " ".join((("%x %x" % v) if a >= 10 else ("%x" % v)) for v in vals)))
+                    for r in range(12):
+                        for v in vals:
+                            ml.append("X 3 %d %d %d %d %s" % (a, SCONST[t1], SCONST[t2], r, ("%x %x" % v) if a >= 10 else ("%x" % v)))
+                    meta.append((a, t1, t2, vals))
+        sd = vlib.scratch("verif-c06alt-")
+        import concurrent.futures as cf
+        shards = [hl[i::vlib.NPROC] for i in range(vlib.NPROC)]
+        def runsh4(k):
+            d = os.path.join(sd, "s%d" % k); os.makedirs(d, exist_ok=True)
+            return vlib.sh([exe4, d], inp=("\n".join(shards[k]) + "\n").encode(), timeout=1200)
+        with cf.ThreadPoolExecutor(vlib.NPROC) as ex:
+            outs = list(ex.map(runsh4, range(vlib.NPROC)))
+        per_line, fails = {}, []
+        for k, (rcx, o) in enumerate(outs):
+            ls = o.split("\n")
+            fails += [l for l in ls if l.startswith(("CONSTFAIL", "CARRAYFAIL"))]
+            per = [l for l in ls if l.startswith(("K ", "Y "))]
+            for j in range(len(shards[k])):
+                per_line[k + j * vlib.NPROC] = per[j * 24:(j + 1) * 24]
+        rcm, mo = vlib.sh([drv], inp=("\n".join(ml) + "\n").encode(), timeout=3000)
+        mo = mo.strip().split("\n")
+        mi, nalt, bad_alt = 0, 0, {}
+        for li, (a, t1, t2, vals) in enumerate(meta):
+            got = per_line.get(li, [])
+            if len(got) != 24:
+                chk.violation("alter-harness", "alter harness produced %d lines for %s: %s->%s" % (len(got), NAMES[a], NAMES[t1], NAMES[t2]), {"kind": "harness", "out": got[:3]}, found=False)
+                mi += 12 * len(vals)
+                continue
+            for r in range(12):
+                nc = 2 if r >= 10 else 1
+                kv = got[r].split()[2:]
+                yv = got[12 + r].split()[2:]
+                for i, v in enumerate(vals):
+                    exp = mo[mi]; mi += 1; nalt += 2
+                    if exp == "U":
+                        continue
+                    for path, vv in (("alter_const", kv), ("alter_carray", yv)):
+                        g = " ".join(vv[i * nc:(i + 1) * nc])
+                        if g != exp:
+                            bad_alt.setdefault((path, a, t1, t2, r), []).append((v, g, exp))
+        chk.cov["evaluations"] += nalt
+        chk.cov["alter_path_evaluations"] = nalt
+        if fails:
+            chk.violation("api/alter/call-failed", "gd_alter_const/gd_alter_carray/put/get failed on a plain CONST/CARRAY: %s" % fails[0], {"kind": "impl-vs-spec", "lines": fails[:5]})
+        for (path, a, t1, t2, r), l in sorted(bad_alt.items())[:12]:
+            v, g, e = l[0]
+            found_any = True
+            chk.violation("api/%s/%s->%s->%s->%s" % (path, NAMES[a], NAMES[t1], NAMES[t2], NAMES[r]),
+                          "%s: caller %s value bits %s stored in a %s, type changed to %s, read as %s gives %s, the C conversions through the storage types demand %s (%d such values)" % (
+                              path, NAMES[a], v, NAMES[t1], NAMES[t2], NAMES[r], g, e, len(l)),
+                          {"kind": "impl-vs-spec", "path": path, "caller_type": NAMES[a], "const_type": NAMES[t1], "new_type": NAMES[t2], "return_type": NAMES[r],
+                           "value_bits": v, "impl": g, "spec": e, "how": "harness/C06/alterconv <scratch>; stdin '<A> <T1> <T2> <n> <hex...>'"})
+    except vlib.BuildError as e:
+        chk.violation("build", "alter harness build failed: " + str(e)[:1500], {"kind": "build"}, found=False)
     # ---- conversions inside derived fields: two consecutive reads with different return types ----
     try:
         exe3 = vlib.build_harness(impl, os.path.join(vlib.VERIF, "harness/C06/derivconv.c"))
